@@ -120,8 +120,9 @@ func c04Guard(c *Ctx) {
 	c.Floor(rule, 2, "guard + constant")
 }
 
-func c04ClaimFlow(c *Ctx) {
-	rule := "C04/claim-flow"
+func c04ClaimFlow(c *Ctx) { c04ClaimFlowAs(c, "C04/claim-flow") }
+
+func c04ClaimFlowAs(c *Ctx, rule string) {
 	gen := c.Fn("cmd/rdpgw/security", "GeneratePAAToken")
 	ctxP := gen.Params[0]
 	var priv *ssa.Alloc
